@@ -108,7 +108,7 @@ def run_check(tier, seed):
         broken.append({'kind': 'harness-build', 'log': out[-3000:]})
         return finish(ev, PROP, findings, broken)
     rnd = random.Random(seed)
-    n_per_mode = 24 if tier == 'quick' else 500
+    n_per_mode = 15 if tier == 'quick' else 500
     cases = gen_cases(rnd, n_per_mode)
     # targeted corpus: the shapes the mutations / defects need
     for mode in P.MODES4:
